@@ -110,7 +110,9 @@ let sc = { s_append_strict = cbool h "s_append_strict";
            s_cg_path = cnum h "s_cg_path";
            s_rp_path = cnum h "s_rp_path";
            s_rp_val_max = cnum h "s_rp_val_max";
-           s_rp_ret_cap = cnum h "s_rp_ret_cap" }
+           s_rp_ret_cap = cnum h "s_rp_ret_cap";
+           s_cfg_strips = cbool h "s_cfg_strips";
+           s_st_empty_ok = cbool h "s_st_empty_ok" }
 let ec = { tag_open = cbytes h "tag_open"; tag_close = cbytes h "tag_close"; tag_colon = cbytes h "tag_colon";
            e_close = cbytes h "e_close"; e_nf1 = cbytes h "e_nf1"; e_nf2 = cbytes h "e_nf2"; e_f1 = cbytes h "e_f1";
            e_f2 = cbytes h "e_f2"; e_f3 = cbytes h "e_f3"; ds_buf_adj = cnum h "ds_buf_adj";
